@@ -716,6 +716,96 @@ impl<'a> Sim<'a> {
                 }
                 Ok(())
             }
+            Op::CloneFrom { src, dst } => {
+                if *src >= MAX_ENGINES || *dst >= MAX_ENGINES || src == dst || self.engines[*src].is_none() {
+                    self.stats.noop_ops += 1;
+                    return Ok(());
+                }
+                if self.engines[*dst].as_ref().map(|d| d.eng.is_shared()).unwrap_or(true) {
+                    // nothing to clone into: behave like a plain clone
+                    return self.exec_inner(&TOp { task, op: Op::CloneEngine { src: *src, dst: *dst } });
+                }
+                let mut d = self.engines[*dst].take().unwrap();
+                let s = self.engines[*src].as_ref().unwrap();
+                self.stats.api_calls += 1;
+                let r = {
+                    let target = d.eng.owned_mut().unwrap();
+                    let source: &Engine = &s.eng;
+                    guarded(|| target.clone_from(source))
+                };
+                if let (Some(t), Some(st)) = (d.twin.as_mut(), s.twin.as_ref()) {
+                    let _ = guarded(|| t.clone_from(st));
+                }
+                d.vs_id = s.vs_id.clone();
+                d.voices = s.voices.clone();
+                d.model = s.model.clone();
+                d.heavy = s.heavy;
+                let ns = s.model.nstream();
+                let a = snapshot(&s.eng.condition, ns);
+                let b = snapshot(&d.eng.condition, ns);
+                self.engines[*dst] = Some(d);
+                self.stats.probe("clone_from");
+                self.note(0x28 + (*src * 8 + *dst) as u64);
+                if let Err(p) = r {
+                    return Err(self.viol("C03.clone", "clone-from-panicked", format!("Engine::clone_from panicked: {}", p.msg)));
+                }
+                if self.prop == Prop::C03 && a != b {
+                    return Err(self.viol("C03.clone", "clone-from-settings-differ", "after dst.clone_from(&src) the observable settings of dst differ from src"));
+                }
+                Ok(())
+            }
+            Op::Reload { e, voices } => {
+                if voices.is_empty() || self.engines.get(*e).and_then(|x| x.as_ref()).map(|x| x.eng.is_shared()).unwrap_or(true) {
+                    self.stats.noop_ops += 1;
+                    return Ok(());
+                }
+                let mut arcs: Vec<Arc<Voice>> = Vec::new();
+                let mut ids = Vec::new();
+                for v in voices {
+                    let (a, id) = self.env.voice(v).map_err(|e| Stop::Harness(HarnessError(e)))?;
+                    arcs.push(a);
+                    ids.push(id);
+                }
+                let slot = self.engines[*e].as_mut().unwrap();
+                self.stats.api_calls += 1;
+                let reload = |eng: &mut Engine, arcs: Vec<Arc<Voice>>| -> Result<(), String> {
+                    let vs = VoiceSet::new(arcs).map_err(|e| e.to_string())?;
+                    eng.condition.load_model(&vs).map_err(|e| e.to_string())?;
+                    eng.voices = vs;
+                    Ok(())
+                };
+                let r = {
+                    let eng = slot.eng.owned_mut().unwrap();
+                    let a2 = arcs.clone();
+                    guarded(|| reload(eng, a2))
+                };
+                if let Some(t) = slot.twin.as_mut() {
+                    let a2 = arcs.clone();
+                    let _ = guarded(|| reload(t, a2));
+                }
+                match r {
+                    Ok(Ok(())) => {}
+                    Ok(Err(e)) => return Err(Stop::Harness(HarnessError(format!("reload of compatible fault-free voices refused: {}", e)))),
+                    Err(p) => return Err(Stop::Harness(HarnessError(format!("reload panicked: {}", p.msg)))),
+                }
+                // model: load_model resets the voice-derived settings and the weights, keeps the rest
+                let old = slot.model.clone();
+                let mut m = CondModel::fresh(&slot.eng, voices.len());
+                m.vol_arg = old.vol_arg;
+                m.vol_seen = old.vol_seen;
+                m.align = old.align;
+                m.speed = old.speed;
+                m.beta = old.beta;
+                m.half = old.half;
+                slot.model = m;
+                slot.vs_id = ids;
+                slot.voices = voices.clone();
+                slot.heavy = voices.iter().any(|v| !matches!(v, VoiceRef::Gen(_)));
+                self.stats.probe("reload_voice_set");
+                self.nontrivial = true;
+                self.note(0x18 + *e as u64);
+                Ok(())
+            }
             Op::DropEngine { e } => {
                 if *e < MAX_ENGINES && self.engines[*e].is_some() {
                     self.engines[*e] = None;
@@ -954,7 +1044,19 @@ impl<'a> Sim<'a> {
                     if self.gens.get(*g).and_then(|x| x.as_ref()).is_none() {
                         break;
                     }
-                    self.op_step(task, *g, 0)?;
+                    let extra = if self.prop == Prop::C02 {
+                        // cycle fperiod, fperiod+1, 2*fperiod, 3*fperiod-sized buffers
+                        let fp = self.gens[*g].as_ref().map(|x| x.fp).unwrap_or(1);
+                        match self.gens[*g].as_ref().map(|x| x.steps % 7).unwrap_or(0) {
+                            2 => 1,
+                            4 => fp,
+                            6 => 2 * fp,
+                            _ => 0,
+                        }
+                    } else {
+                        0
+                    };
+                    self.op_step(task, *g, extra)?;
                     if self.prop != Prop::C03 {
                         // other properties keep exhausted generators alive; stop once exhausted
                         if let Some(gs) = self.gens[*g].as_ref() {
